@@ -17,6 +17,6 @@ func VK01DiskpackedSeq() {
 	}
 	blobs := []vmodel.LinBlob{{Ref: vB0, Data: "a"}, {Ref: vB1, Data: "bb"}, {Ref: vB2, Data: ""}}
 	s := vOpen(&vmodel.KV{}, max)
-	vmodel.SeqHistory(s, blobs, 0, 3+vrt.Tier())
+	vmodel.SeqHistory(s, blobs, 0, 3)
 	vrt.Cover("done")
 }
